@@ -38,6 +38,7 @@ package phyloxml
 //@   call io/phyloxml.phylogenyToTree [one_tree_per_phylogeny_in_document_order] a1 != nil && a0 != nil
 //@   call io/phyloxml.phylogenyToTree@L1 [every_phylogeny_is_converted_into_a_tree_of_its_own] a1 == t && freshiter(t)
 //@   loop 1
+//@     complete [all_iterations_no_early_exit]
 //@     invariant [callback_called_once_per_phylogeny_so_far] ghost(fncalls_it) == lold(ghost(fncalls_it)) + rangeindex + 1
 //@   ensures [callback_called_once_per_phylogeny] ghost(fncalls_it) == old(ghost(fncalls_it)) + len(p.Phylogenies)
 
@@ -71,6 +72,7 @@ package phyloxml
 //@   call fmt.Sprintf [name_then_length_then_confidence_each_only_when_present] a0 == ((ghost(ncalls_Sprintf) == old(ghost(ncalls_Sprintf)) && n.name != "") ? "%s<name>%s</name>\n" : ((ghost(ncalls_Sprintf) == old(ghost(ncalls_Sprintf)) + (n.name != "" ? 1 : 0) && e.length != -1.0) ? "%s<branch_length>%s</branch_length>\n" : "%s<confidence type=\"bootstrap\">%s</confidence>\n")) && ghost(ncalls_WriteString) == old(ghost(ncalls_WriteString)) + 1 + (ghost(ncalls_Sprintf) - old(ghost(ncalls_Sprintf)))
 //@   return [one_line_per_present_value_between_the_two_tags] ghost(ncalls_WriteString) == old(ghost(ncalls_WriteString)) + 2 + (n.name != "" ? 1 : 0) + ((prev != nil && e != nil && e.length != -1.0) ? 1 : 0) + ((prev != nil && e != nil && len(n.neigh) != 1 && e.support != -1.0) ? 1 : 0)
 //@   loop 2
+//@     complete [all_iterations_no_early_exit]
 //@     invariant [all_values_were_written_before_the_first_sub_clade] ghost(ncalls_WriteString) == old(ghost(ncalls_WriteString)) + 1 + (n.name != "" ? 1 : 0) + ((prev != nil && e != nil && e.length != -1.0) ? 1 : 0) + ((prev != nil && e != nil && len(n.neigh) != 1 && e.support != -1.0) ? 1 : 0)
 //@     step [one_sub_clade_per_neighbour_other_than_the_parent] ghost(ncalls_writeClade) == atHead(ghost(ncalls_writeClade)) + (n.neigh[rangeindex + 1] != prev ? 1 : 0)
 //@   requires n != nil && allocated(n) && buf != nil && INV12()
@@ -102,4 +104,5 @@ package phyloxml
 //@   return@L1 [the_first_erroneous_tree_stops_the_conversion_with_its_error_and_no_text] result1 == t.Err && result1 != nil && result0 == ""
 //@   return@L0 [otherwise_the_text_is_returned_without_error] result1 == nil
 //@   loop 1
+//@     complete [all_iterations_no_early_exit]
 //@     step [one_phylogeny_per_tree] ghost(ncalls_writePhylogeny) == atHead(ghost(ncalls_writePhylogeny)) + 1
